@@ -126,6 +126,15 @@ func c24Gen(r *rand.Rand) c24Item {
 		aliases = append(aliases, name)
 	}
 	all := append(append([]string{}, real...), aliases...)
+	if r.Intn(15) == 0 {
+		// aliases that form a loop: using one must be reported as an error, not followed for ever
+		if r.Intn(2) == 0 {
+			it.Flags["-c0"] = "-c0"
+		} else {
+			it.Flags["-c0"], it.Flags["-c1"] = "-c1", "-c0"
+		}
+		all = append(all, "-c0", "-c0")
+	}
 	value := func(typ string, bad bool) string {
 		switch typ {
 		case "int":
